@@ -14,7 +14,7 @@ pub const MANDATORY: &[&str] = &[
 
 const BASES: &[&str] = &[
     "http://a/b/c/d;p?q", "http://a", "http://a/", "http://a?q", "s://h/a/b/", "s://h/a/./b/../c", "s://h//a//b", "s:/a/b", "s:/", "s:", "s:a/b", "s:a",
-    "s:a:b/c", "s:/a/b?q", "s:?q", "s://", "s:///", "s://u@[::1]:8/x/y", "s:..", "s:../a", "s:/.//a/b", "file:///x/y/z", "s://h/a/b/.", "s://h/a/..", "s://h/..", "s://h/../../x", "s:/a/b/..", "s://h/a/b/?", "s://h/a/b?#", "s://h?q#f", "s:a/./b/../../../c", "s://h/a%2Fb/c",
+    "s:a:b/c", "s:/a/b?q", "s:?q", "s://", "s:///", "s://u@[::1]:8/x/y", "s:..", "s:../a", "s:/.//a/b", "file:///x/y/z", "s://h/a/b/.", "s://h/a/..", "s://h/..", "s://h/../../x", "s:/a/b/..", "s://h/a/b/?", "s://h/a/b?#", "s://h?q#f", "s:a/./b/../../../c", "s://h/a%2Fb/c", "s://h://a/b", "s://h:/a/b", "s://h:", "s://u@h://", "s://@://x/y", "s://h:80//a//b",
 ];
 const REFS: &[&str] = &[
     "", "#f", "?y", "?y#f", "g", "./g", "g/", "/g", "//g", "//g/x/.", "//g/a/..", "g?y", "g#s", ";x", ".", "./", "..", "../", "../g", "../..", "../../", "../../g",
